@@ -1,7 +1,8 @@
 """C20 -- see DESIGN.md section 5.  Deductive targets are added below the bounded import."""
 PROP = "C20"
-LEVEL = "other"
-EXPLANATION = 'bounded stand-in: generated source files / source-less code x messages x verbosity x UTF-8; highlighter corpus'
+LEVEL = 'other'
+EXPLANATION = ('Deductive: Highlighter.code_snippet returns a contiguous run of at most before+after+1 numbered entries that contains the entry of the failing line whenever it exists; line_numbers yields one entry per line.  Bounded: generated source files / source-less code x messages x verbosity x UTF-8, debug-level frame snippets, highlighter corpus.')
+LEVEL_NOTE = ('assumes: tokenize / crashtest are external: highlighting and trace content are bounded only')
 from . import trace_contracts as tcx
 TARGETS = [tcx.H + "line_numbers", tcx.H + "code_snippet"]
 LEMMAS = []
